@@ -101,6 +101,10 @@ type StoredData struct {
 }
 
 func (tps *TPS) ClassifyMsg(msgBytes []byte) (uint8, bool, error) {
+	if len(msgBytes) == 0 {
+		return 0, false, fmt.Errorf("empty message")
+	}
+
 	switch msgBytes[0] {
 	case shareDistribution:
 		return shareDistribution, false, nil
@@ -149,15 +153,24 @@ func (tps *TPS) KeyGen(ctx context.Context) ([]byte, error) {
 	// We then distribute the polynomial evaluations (shares) to all parties.
 	// Each party 'i' gets P(i).
 	tps.shareDistribution(ctx, xShares, yShares)
+	if err := ctx.Err(); err != nil {
+		return nil, fmt.Errorf("failed receiving shares from all parties: %v", err)
+	}
 
 	// Having received all shares, we combine all shares received from all parties by adding them.
 	pk := tps.combineShares()
 	pkBytes := pk.Bytes()
 
 	tps.commitPhase(ctx, pkBytes)
+	if err := ctx.Err(); err != nil {
+		return nil, fmt.Errorf("failed receiving commitments from all parties: %v", err)
+	}
 
 	// Now we de-commit, and wait for everyone else to de-commit thus revealing their public key.
 	tps.revealPhase(ctx, pkBytes)
+	if err := ctx.Err(); err != nil {
+		return nil, fmt.Errorf("failed receiving public keys from all parties: %v", err)
+	}
 	// Next, we ensure the commitments we received match the de-commitments
 	if err := tps.validateCommitments(); err != nil {
 		return nil, err
@@ -197,6 +210,11 @@ func (tps *TPS) ThresholdPK() ([]byte, error) {
 }
 
 func (tps *TPS) OnMsg(msgBytes []byte, from uint16, _ bool) {
+	if len(msgBytes) == 0 {
+		tps.Logger.Warnf("Got an empty message from %d", from)
+		return
+	}
+
 	tps.lock.Lock()
 	defer tps.lock.Unlock()
 
